@@ -12,11 +12,14 @@
     C11Rows    rows_consecutive, drawn_cell_row_recorded
     C11Procs   tabs_mono, tabs_roundtrip, tabs_d2s_floor, tabs_shows, applyProc_good, merged_good
     C11Doc     rowOf_lt, colOf_le
+    C11Exact   (model variant of the NOT-APPLIED fix) wrappedHeight_ones, fold_wrap_rows_gen,
+               copyLine_wrap_rows_gen, heightForLine_exact, wrap_height_exact_fixed
 -/
 import Ptk.Props.C11Window
 import Ptk.Props.C11Rows
 import Ptk.Props.C11Procs
 import Ptk.Props.C11Doc
+import Ptk.Props.C11Exact
 namespace Ptk.C11
 open Ptk.Py
 
@@ -241,56 +244,73 @@ example := render_cursor_on_char w1_W1 cfg1
       · decide
       · split <;> decide)
 
-/-! ### the known findings, machine-checked on the model (negations of the main theorems outside
-    their hypotheses) -/
+/-! ### the findings, machine-checked on the model (negations of the main theorems outside their
+    hypotheses).  `dm` = the scroll code measures characters as drawn (fix 9db5f12, applied);
+    `exact` = cell-by-cell wrapped height (proposed fix C11-wide-wrap-height.diff, NOT applied). -/
 
 /-- '世' is two columns wide -/
-def wWide : Widths := { rw := fun c => if c = '世' then 2 else 1, disp := fun c => [c] }
+def wWide : Widths := { rw := fun c => if c = '世' then 2 else 1, disp := fun c => [c], dm := true }
 
-/-- known finding (wide characters, wrapping): width 2, height 1, line "a世" + blank, cursor on the
-    blank: the height estimate says 2 rows (4 cells / 2), the copy loop needs 3 ('a' / '世' / ' '), the
-    scroll stops one row short and the cursor cell is not drawn -/
+/-- KNOWN finding (wide characters, wrapping; the code as it is now): width 2, height 1, line "a世" +
+    blank, cursor on the blank: the height estimate says 2 rows (4 cells / 2), the copy loop needs 3
+    ('a' / '世' / ' '), the scroll stops one row short and the cursor cell is not drawn -/
 theorem wide_wrap_loses_cursor :
     let lines := ["a世 ".toList]
     let s' := scrollFor wWide cfg0 lines 2 1 true 0 2 s0
     s'.vs2 = 1 ∧ cursorFound (copyBody (envFor wWide cfg0 2 1 true 0) lines s') 0 2 = false := by
   decide
 
-/-- a raw TAB: measured 0 by `get_cwidth`, drawn as "^I" (2 columns) -/
-def wCtrl : Widths := { rw := fun c => if c = '\t' then 0 else 1,
-                        disp := fun c => if c = '\t' then ['^', 'I'] else [c] }
+/-- a raw TAB: `get_cwidth` says 0, it is drawn as "^I" (2 columns); `dm` selects which of the two the
+    scroll code uses -/
+def wCtrl (dm : Bool) : Widths :=
+  { rw := fun c => if c = '\t' then 0 else 1, disp := fun c => if c = '\t' then ['^', 'I'] else [c], dm := dm }
 
-/-- known finding (control characters, no wrapping): width 5, "\t\t\t\tx" + blank, cursor on 'x':
-    the scroll code measures 0 columns before the cursor, the cell is at column 8 -/
-theorem control_nowrap_loses_cursor :
-    let lines := ["\t\t\t\tx ".toList]
-    let s' := scrollFor wCtrl cfg0 lines 5 1 false 0 4 s0
-    s'.hs = 0 ∧ cursorFound (copyBody (envFor wCtrl cfg0 5 1 false 0) lines s') 0 4 = false := by
+/-- FIXED finding (control characters, no wrapping): width 5, "\t\t\t\tx" + blank, cursor on 'x'.
+    Before 9db5f12 (`dm = false`) the scroll code measured 0 columns before the cursor while the cell
+    is at column 8: not drawn.  With 9db5f12 (`dm = true`) horizontal_scroll becomes 4 and the cursor
+    is on 'x' at column 4. -/
+theorem control_nowrap_before_and_after_fix :
+    (let W := wCtrl false
+     let lines := ["\t\t\t\tx ".toList]
+     let s' := scrollFor W cfg0 lines 5 1 false 0 4 s0
+     s'.hs = 0 ∧ cursorFound (copyBody (envFor W cfg0 5 1 false 0) lines s') 0 4 = false) ∧
+    (let W := wCtrl true
+     let lines := ["\t\t\t\tx ".toList]
+     let s' := scrollFor W cfg0 lines 5 1 false 0 4 s0
+     let r := copyBody (envFor W cfg0 5 1 false 0) lines s'
+     s'.hs = 4 ∧ cursorFound r 0 4 = true ∧ cursorScreen r 0 4 = (0, 4) ∧ cellAt r.cells (0, 4) = ['x']) := by
   decide
 
-/-- known finding (control characters, wrapping): same line, width 5, height 1 -/
+/-- KNOWN finding (control characters, wrapping; the code as it is now, `dm = true`): width 3, height 1,
+    "\t\tx" + blank, cursor on the blank: estimate (2+2+1+1)/3 = 2 rows, the copy needs 3
+    ('^I' / '^Ix' / ' ') — a two-cell control character behaves like a double-width character -/
 theorem control_wrap_loses_cursor :
-    let lines := ["\t\t\t\tx ".toList]
-    let s' := scrollFor wCtrl cfg0 lines 5 1 true 0 4 s0
-    s'.vs2 = 0 ∧ cursorFound (copyBody (envFor wCtrl cfg0 5 1 true 0) lines s') 0 4 = false := by
+    let W := wCtrl true
+    let lines := ["\t\tx ".toList]
+    let s' := scrollFor W cfg0 lines 3 1 true 0 3 s0
+    s'.vs2 = 1 ∧ cursorFound (copyBody (envFor W cfg0 3 1 true 0) lines s') 0 3 = false := by
   decide
 
-/-- the same three inputs on the model of the code WITH the two proposed fixes
-    (`proposed_fixes/C11-control-char-width.diff`, `C11-wide-wrap-height.diff`: measure as drawn, wrap
-    non-1-column lines character by character): the cursor is found, inside the window, on its cell -/
-theorem proposed_fixes_recover_cursor :
-    (let W := { wWide with dm := true, exact := true }
+/-- the two remaining inputs on the model variant of the NOT-APPLIED repair (`exact := true`): the
+    cursor is found, inside the window, on its cell -/
+theorem proposed_fix_recovers_cursor :
+    (let W := { wWide with exact := true }
      let lines := ["a世 ".toList]
      let r := copyBody (envFor W cfg0 2 1 true 0) lines (scrollFor W cfg0 lines 2 1 true 0 2 s0)
      cursorFound r 0 2 = true ∧ cursorScreen r 0 2 = (0, 0) ∧ cellAt r.cells (0, 0) = [' ']) ∧
-    (let W := { wCtrl with dm := true, exact := true }
-     let lines := ["\t\t\t\tx ".toList]
-     let r := copyBody (envFor W cfg0 5 1 false 0) lines (scrollFor W cfg0 lines 5 1 false 0 4 s0)
-     cursorFound r 0 4 = true ∧ cursorScreen r 0 4 = (0, 4) ∧ cellAt r.cells (0, 4) = ['x']) ∧
-    (let W := { wCtrl with dm := true, exact := true }
-     let lines := ["\t\t\t\tx ".toList]
-     let r := copyBody (envFor W cfg0 5 1 true 0) lines (scrollFor W cfg0 lines 5 1 true 0 4 s0)
-     cursorFound r 0 4 = true ∧ cellAt r.cells (cursorScreen r 0 4) = ['x']) := by
+    (let W := { wCtrl true with exact := true }
+     let lines := ["\t\tx ".toList]
+     let r := copyBody (envFor W cfg0 3 1 true 0) lines (scrollFor W cfg0 lines 3 1 true 0 3 s0)
+     cursorFound r 0 3 = true ∧ cursorScreen r 0 3 = (0, 0) ∧ cellAt r.cells (0, 0) = [' ']) := by
   decide
+
+-- heights of "a世a" at width 2: arithmetic 2, cell by cell 3 (= rows of the copy loop)
+example : heightForLine wWide "a世a".toList 2 none none = 2 := by decide
+example : heightForLine { wWide with exact := true } "a世a".toList 2 none none = 3 := by decide
+example : (copyLine (envFor wWide cfg0 2 9 true 0) 0 0 "a世a".toList (initCS 0)).y + 1 = 3 := by decide
+example := wrap_height_exact_fixed { wWide with exact := true } rfl rfl cfg0 2 9 0 (by decide) 0
+  (fun f h => by simp [cfg0, Cfg.prefixFn] at h) (fun f h => by simp [cfg0, Cfg.prefixFn] at h)
+  "a世a".toList (initCS 0) rfl (by decide)
+example := wrappedHeight_ones (fun _ => 1) 3 (fun _ => by decide) 7 1 1 8 (by decide) (by decide)
 
 end Ptk.C11
